@@ -5,6 +5,7 @@ const char mixed[] = {tab & 255, tab >> 8, tab + 1 & 255, tab + 1 >> 8, tab - 1 
 const short smixed[] = {1000, tab, tab + 1, tab >> 8, -5};
 const char *ptrs[] = {tab, buf + 2, tab - 1, buf, "text", 0x1000, "more"};
 const char *sized[2] = {tab, buf};
+const char *nested[] = {sized, tab};
 char r;
 char *q;
 void main()
@@ -13,5 +14,6 @@ void main()
     q = ptrs[X];
     r = q[Y];
     q = sized[1];
+    q = nested[Y];
     r += smixed[X];
 }
